@@ -242,6 +242,19 @@ pub fn run(o: &Opts, rep: &mut Report) {
         }
     }
     rep.nontrivial = distinct;
+    // samples: three compared cases written out (trace as seen without the feature + digest)
+    for pick in [0usize, ids.len() / 2, ids.len().saturating_sub(1)] {
+        if pick < ids.len() {
+            let (h, n, trace) = digest_case(o.seed, &ids[pick], true);
+            rep.samples.push(
+                J::obj()
+                    .set("case_id", J::s(&format!("E6:C20:{}:{}", o.seed, ids[pick])))
+                    .set("digest", J::s(&format!("{:016x}", h)))
+                    .set("events", J::i(n))
+                    .set("trace_without_tracing", J::arr(trace.iter().take(60).map(|x| J::s(x)))),
+            );
+        }
+    }
     for (name, sub) in [("feature on, no subscriber", false), ("feature on, TRACE subscriber", true)] {
         match run_other(&bin, o, sub) {
             Err(e) => rep.inconclusive.push(e),
